@@ -22,8 +22,8 @@ claim('C19', 'exploration',
 
 claim('C04', 'exploration',
       'Random API histories (40-120 calls, 1-3 CIFs, colliding name pools in case / NFC / NFD / reordered-mark variants, '
-      'invalid names, NULL and duplicate categories, empty and foreign-item packets, iterator edits, parsing into an '
-      'existing CIF, stale loop handles) executed in lock-step with an executable model of the documented data model; '
+      'invalid names, NULL and duplicate categories, empty and foreign-item packets, iterator edits with read-only calls '
+      'and refused iterator requests made meanwhile, parsing into an existing CIF, stale loop and container handles) executed in lock-step with an executable model of the documented data model; '
       'result codes must lie in the model\'s acceptable set, every query result must equal the model\'s, and full dumps '
       '(query API only) are compared at checkpoints, after destroy / prune / iterator / parse steps and for every CIF at '
       'the end, which also shows cross-CIF interference.',
@@ -48,7 +48,8 @@ claim('C06', 'exploration',
       'packets) x every script over {next fresh / next into a caller packet with extra items / next NULL sink / update '
       'subset / update with foreign item / update empty / remove} up to length 6 (thorough: the whole space; quick: all '
       'scripts up to length 3 plus a seeded sample of the length-5 space) x {close, abort}, each on a fresh CIF, judged '
-      'by a state-machine model with unique cell values; plus empty-loop, destroyed-loop, remove-all and two-loop cases.',
+      'by a state-machine model with unique cell values, while a second block and a save frame holding loops of the same '
+      'item names must stay untouched; plus empty-loop, destroyed-loop, remove-all, two-loop and refused-request cases.',
       'Packet order is unspecified: a NULL-sink next is assumed to consume packets in storage order.  After '
       'CIF_FINISHED update/remove may be refused or act on the last delivered packet.',
       'runtime monitoring: bounded-exhaustive script enumeration against a state-machine oracle under ASan/UBSan',
@@ -72,7 +73,9 @@ claim('C01', 'exploration',
       '(white space / comment runs, keyword case, every admissible delimiter per value, folded / prefixed text fields, '
       'tokens pushed to the line-length limit); enumerated families cover every ordered pair of 16 presentations x 4 '
       'contexts x separators, every ASCII character at every lexical position (CIF 2.0 and 1.1) and text-field protocol '
-      'corner texts.  The parse must report no error, return CIF_OK and dump to exactly the abstract content.',
+      'corner texts; 270 kB documents whose leading comment slides short items of every presentation across the offsets '
+      'at which the scan buffer fills up and is compacted.  The parse must report no error, return CIF_OK and dump to '
+      'exactly the abstract content.',
       'Held on the seeded documents; trusts the writer\'s reading of the grammar (cross-validated by thousands of '
       'agreeing parses).  Lines <= 2048, one level of save frames, nesting bounded by the generator.',
       'runtime monitoring: generator-as-oracle differential parsing under ASan/UBSan',
@@ -83,7 +86,8 @@ claim('C08', 'exploration',
       'defects are parsed with LF terminators and no padding; every transform - CR LF / CR / per-line mixtures, comment '
       'padding of every byte length 0..4095 after the first line (every alignment against the 4096-byte read buffer, '
       'for LF and CR LF), UTF-16 input at 128 alignments, tokens of 131 190 .. 300 000 units (text field, triple-quoted, '
-      'comment, unquoted, 100 000 CR LF pairs), leading CR / CR LF / BOM+CR, CR LF pairs straddling a fill boundary - must '
+      'comment, unquoted, 100 000 CR LF pairs), leading CR / CR LF / BOM+CR, CR LF pairs straddling a fill boundary, 270 kB '
+      'documents with ordinary tokens at the scan-buffer compaction points and ending inside a compaction window - must '
       'yield the same dump and the same (error code, line) sequence, lines shifted by the padding.',
       'Held on the enumerated alignments and seeded base documents.  The reference parse of the well-formed part is '
       'itself tied to the generator\'s content.',
@@ -110,7 +114,7 @@ claim('C14', 'exploration',
       'non-continue answer {SKIP_CURRENT, SKIP_SIBLINGS, END, CIF_CLIENT_ERROR, 77} at every callback (exhaustive), pairs '
       '(thorough) and random dense programs are walked and judged by an abstract interpreter of the documented semantics '
       '(must / may / must-not), together with the return value, handle queries inside callbacks, the ledger and the '
-      'transaction state.',
+      'transaction state; the programs are repeated with handler structures some of whose members are NULL.',
       'The reference element order is that of the all-continue walk of the same unchanged CIF.  End callbacks of skipped '
       'elements / of parents after SKIP_SIBLINGS are "may".',
       'runtime monitoring: trace-specification checking of callback logs, exhaustive single-answer handler programs',
@@ -123,7 +127,8 @@ claim('C15', 'exploration',
       'space / comments at monotone positions, and both modes must give identical handler and syntax sequences.  Every '
       'single non-continue answer at every callback (exhaustive), pairs (thorough) and random programs are then parsed in '
       'both modes and judged by an abstract interpreter: must / may / must-not callbacks, return value, and stored / '
-      'absent / don\'t-care content.',
+      'absent / don\'t-care content; repeated with NULL handler members, and with a loop_start handler that uses the '
+      'loop handle it is given (categories).',
       'Documents are the seeded ones generated (96 quick / 2000 thorough).  "may" / don\'t-care classes as listed in '
       'DESIGN.md section 5, item 1; the text passed to the keyword callback is not judged.',
       'runtime monitoring: trace-specification checking of parse callbacks derived from the abstract document',
@@ -135,7 +140,8 @@ claim('C12', 'exploration',
       'one header, duplicate / invalid block and frame codes, data before the first block, partial packets, empty loop '
       'header, loop without values, unterminated quotes / text / triple quotes, missing white space, stray and missing '
       'delimiters, missing / null / unquoted / text-block keys, reserved words in mixed case, unterminated / unexpected / '
-      'disallowed / nested save frames, over-length lines in every context and at end of input, disallowed characters, '
+      'disallowed / nested save frames, over-length lines in every context and at end of input, strings cut off by the end '
+      'of the input, key colons inside lists, disallowed characters, '
       'unexpected and invalid bare values) x 8 positions x LF / CR LF (/ CR), plus 2047/2048-character controls: first '
       'reported code, its line interval, the return value after accepting every error, and the full recovered content '
       'are judged against a table written from the error-recovery documentation.',
@@ -149,7 +155,8 @@ claim('C02', 'exploration',
       'lists / tables to depth 2) whose strings are boundary-biased - lengths 2038..2052 and 4090..4100, lines of '
       '2046..2049, both quote kinds, triple-quote and text-terminator look-alikes, fold / prefix marker look-alikes, '
       'trailing blanks and backslashes, semicolon runs, supplementary characters at fold points, 2000..2047-character '
-      'names and codes - are written with cif_write, byte-checked (version comment, UTF-8, every line <= 2048 code '
+      'names and codes, and strings concatenated from the fragments the choice of delimiter and text-field protocol depends '
+      'on - are written with cif_write, byte-checked (version comment, UTF-8, every line <= 2048 code '
       'points) and re-parsed; the re-parse must report nothing and be equivalent to the original under exactly the '
       'tolerances of the statement.  Refusal is accepted only as CIF_DISALLOWED_VALUE for a table key without a quoted form.',
       'Equivalence ignores loop categories and compares names by normal form.  A key is only required to be writable when '
@@ -221,7 +228,8 @@ claim('C03', 'exploration',
       '(bit flips, control bytes, malformed UTF-8, surrogates, BOMs, span deletion / duplication / swap, truncation, '
       'token splicing in other encodings, runs of up to a megabyte, line-terminator rewrites), each under a random option '
       'vector (prefer_cif2, max_frame_depth, fold / prefix modifiers, extra whitespace / EOL sets, default encoding incl. '
-      'an unsupported one, forcing, handler present or not, target new / absent / pre-populated) in a family of runs on '
+      'an unsupported one, forcing, handler present or not, target new / absent / pre-populated / the CIF of an earlier '
+      'parse of the same bytes) in a family of runs on '
       'the same bytes: all errors accepted (reference), default handler (must return the first reported code), n-th '
       'error rejected with a caller code (must see exactly the first n errors and return that code), another read-chunk '
       'size with the handler toggled (same errors), k-th read failing (defined non-zero result).  Every run: watchdog, '
@@ -234,7 +242,8 @@ claim('C03', 'exploration',
       'DESIGN.md section 4, C03')
 
 claim('C17', 'fault_enumeration',
-      'For every public function that can allocate (112 operations over 68 functions: each argument shape of the CIF, '
+      'For every public function that can allocate (142 operations over 68 functions, 27 of them repeated inside an open '
+      'packet iterator on another loop, two at the insertion where a hash table grows: each argument shape of the CIF, '
       'container, loop, packet-iterator, packet, value, parse, write and utility calls) the single call is executed on a '
       'fresh deterministic fixture with the k-th allocation failing, for every k up to the count of an unfaulted twin '
       '(quick: the first 60 and 10 evenly spaced later ones), separately for the library / hash-table allocator '
